@@ -406,7 +406,7 @@ def run_circuits(shard, rec, B):
         items = rand_items(rng, N, int(rng.integers(1, 13))) if not shard.get("Ns") else wide_items(rng, N)
         nm = sum(len(x) for k, x in items if k == "m")
         desc = {"N": N, "items": [["Mz", x] if k == "m" else PR.describe(x) for k, x in items]}
-        staged = (t % 4 == 3)
+        staged = (t % 4 in (2, 3))      # t % 4 == 2: NOT compiled again (everything after the prefix sits behind a measurement, in new layers)
         if staged:
             # ONE live Circuit: a gates-only prefix is taken and compiled (whole-circuit maps exist now), then measurement
             # layers and more gates are taken, then it is compiled again as documented; stale prefix maps must not be used
@@ -495,6 +495,27 @@ def run_circuits(shard, rec, B):
                 rec.refusal("ValueError:impossible record")
             except Exception as e:
                 got = "%s: %s" % (type(e).__name__, e)
+            if how == "recorded":
+                # the circuit's record is the circuit's: running backward does not use it up, and a measurement layer of the circuit that
+                # is applied on its own to some other state afterwards does not change which trajectory the circuit recorded
+                kept = [int(x) for x in circ.measure_result]
+                rec.check("bwd.record_kept", kept[-nm:] == record and len(kept) >= nm, case, True, expected=record, observed=kept[-nm:])
+                for lay in inserted:
+                    if hasattr(lay, "result") and hasattr(lay, "log2prob") and not hasattr(lay, "gates"):
+                        og, op_, orr = O.random_tableau(rng, N)
+                        lay.forward(B.State(og, op_, orr))
+                S2 = B.State(sg.copy(), sp.copy(), 0)
+                try:
+                    circ.backward(S2)
+                    got2 = "returned"
+                except ValueError:
+                    got2 = "ValueError"
+                except Exception as e:
+                    got2 = "%s: %s" % (type(e).__name__, e)
+                if not getattr(rec, "lenient", False):
+                    g2_, p2_, r2_ = B.state(S2)
+                    same_again = (got2 == got) and (got != "returned" or (np.array_equal(g2_, B.state(S)[0]) and np.array_equal(p2_, B.state(S)[1])))
+                    rec.check("bwd.again", same_again, case, True, expected=got, observed=got2)
             if getattr(rec, "lenient", False) and got not in ("returned", "ValueError"):
                 rec.refusal("bwd:" + got.split(":")[0])     # element-type shards: a refusal is not an answer
             elif possible:
